@@ -44,7 +44,7 @@ TRUSTED = [
     'Driver/C09.lean: Python semantics of the operators on None/bool/int/str/list (`pyApply`, `pyEq`, `truthy`) - every oracle verdict on the implementation exercises it against CPython',
     'harness/props/c09.py adapter (builds the program on the real param.rx, reports value / exception class of every read, callbacks per update) and extract() (ast walk over class rx)',
     'list of dunders Python can dispatch (Props/C09.lean `dispatchable`; excluded on purpose: __round__, __contains__, __iter__, __bool__, __len__, __call__ - see the docstring) and of helpers (`requiredHelpers`)',
-    'correspondence is differential testing: model = code only on the programs executed; besides every observable outcome it compares, after every statement, the internal flags (_dirty, _error_state set, _root._dirty_obj) of every node that has a counterpart in the model (roots, the copy made by _resolve_accessor, derived nodes; not attribute accessors, and not from the point where an operator is applied to an accessor - the rendering reads the accessor there, the code does not)',
+    'correspondence is differential testing: model = code only on the programs executed; besides every observable outcome it compares, after every statement, the internal flags (_dirty, _error_state set, _root._dirty_obj) of every node that has a counterpart in the model (roots, the copy made by _resolve_accessor, derived nodes; not attribute accessors and the pipelines built on them - rendered with other copy / root nodes)',
     'CPython: operator dispatch to reflected dunders, small-int / bool / None identity for `is`',
 ]
 ASSUMPTIONS = [
@@ -57,7 +57,7 @@ ASSUMPTIONS = [
     'inputs are assigned fresh objects: mutating a list in place and re-assigning the same object is outside the model (param then sees old is new, nothing is invalidated - the documented onlychanged contract; use param.trigger)',
     'a Parameter(allow_refs=True) holding an expression as a reference (`ref` / `readref` statements): its `_sync_refs` watcher is modelled as a precedence -1 consumer that runs after all invalidations and before the precedence 0 watchers; the invalidation watchers of nodes created after the holder run again after it (their place in the real registration order; `invalidateFrom`); that the holder mirrors the expression is checked by correspondence and by the oracle, there is no theorem about it; when an exception escapes an update in a program with holders the program ends there (the real dispatch then also skips the invalidation watchers registered after the raising `_sync_refs`, which is not modelled; internal flags are not compared at that step)',
     'values also include floats (whole numbers and halves, exact as numerator/denominator) for round(expr) / round(expr, 0), ==, bool, str and .real/.imag only; read results are compared type-sensitively (True / 1 / 1.0 are different observations)',
-    'plain attribute access `acc = expr.name` (int/bool/float data attributes real, imag, numerator, denominator) is rendered in the Lean model as the method-call statement with the total operation `attr:name` = getattr(value, name, value) and no operands (same reads, dependencies and values as the accessor node whose `_resolve` applies the pending `_method`; two unreachable extra nodes); an accessor may be read, used as operand / bind input / where branch / watched / referenced, or be the subject of ONE operator (which consumes it: known finding attribute-accessor-consumed-by-operator when it is held elsewhere); chained attribute / method access on an accessor is not generated',
+    'plain attribute access `acc = expr.name` (int/bool/float data attributes real, imag, numerator, denominator) is rendered in the Lean model as the method-call statement with the total operation `attr:name` = getattr(value, name, value) and no operands (same reads, dependencies and values as the accessor node whose `_resolve` applies the pending `_method`; two unreachable extra nodes); an accessor may be read, used as operand / bind input / where branch / watched / referenced and be the subject of operators (each records the getattr on a private copy, /repo 2dee7d8); chained attribute / method access on an accessor is not generated',
     'not modelled: async / generator operations (internal Trigger), kwargs, raw bound functions (not wrapped in rx) as operands, rx.when/buffer/updating/resolve, batched updates of several parameters',
     'an input update is atomic for precedence -1 watchers (all invalidations run before any precedence 0 consumer) - checked by correspondence, not proved',
     'operator_table_complete (over the generated RxOps table) lives in the same module as the other theorems: a broken table makes the whole module fail to build, so the evidence then reports every C09 obligation as undischarged, not only that one',
@@ -184,13 +184,10 @@ def run_impl(case):
     try:
         flags = []
 
-        quiet = [False]
-
         def snap():
-            # not compared: after an operator was applied to an attribute accessor (the model's rendering reads the
-            # accessor at that point, the code does not), and at an update that raised in a program with holders
+            # not compared: at an update that raised in a program with holders
             last = steps[len(flags)] if len(flags) < len(steps) else {}
-            if quiet[0] or (last.get('k') == 'set' and last.get('e') and w.holders):
+            if last.get('k') == 'set' and last.get('e') and w.holders:
                 flags.append([])
             else:
                 flags.append([[i, bool(o._dirty), o._error_state is not None, bool(o._root._dirty_obj)] for i, o in w.cmp])
@@ -198,8 +195,6 @@ def run_impl(case):
             if len(flags) < len(steps):
                 snap()
             s = st['s']
-            if s == 'op' and st['n'] in w.accs:
-                quiet[0] = True
             if s in ('lit', 'rootp', 'op', 'meth', 'attr', 'meth2', 'bind', 'where'):
                 try:
                     if s == 'lit':
@@ -239,11 +234,14 @@ def run_impl(case):
                         w.params.append(('t',))
                         w.nodes.append(rx(fn))
                     base = len(w.nodes) - NODES_OF[s]
-                    if s in ('lit', 'rootp', 'bind', 'where'):
+                    if s in ('op', 'meth', 'meth2', 'attr') and st['n'] in w.accs:
+                        # a pipeline through an attribute accessor is rendered with other (copy / root) nodes in the
+                        # model: its internal flags are not comparable
+                        w.accs.update(range(base, len(w.nodes)))
+                    elif s in ('lit', 'rootp', 'bind', 'where'):
                         w.cmp.append((base, w.nodes[base]))
                     elif s == 'op':
-                        if st['n'] not in w.accs:                      # the copy made by _resolve_accessor
-                            w.cmp.append((base, w.nodes[base + 1]._prev))
+                        w.cmp.append((base, w.nodes[base + 1]._prev))   # the copy made by _resolve_accessor
                         w.cmp.append((base + 1, w.nodes[base + 1]))
                     elif s == 'meth':
                         w.cmp += [(base + 1, w.nodes[base + 2]._prev), (base + 2, w.nodes[base + 2])]
@@ -612,7 +610,7 @@ class _Gen:
         self.fam = set()
         self.nwatch = 0
         self.nref = 0
-        self.acc = set()      # attribute accessor nodes (an operator consumes the accessor)
+        self.acc = set()      # attribute accessor nodes
         self.supp = {}        # node id -> inputs the expression mentions (static)
         self.prog_allow_ref = rng.random() < 0.35
 
@@ -724,22 +722,13 @@ class _Gen:
             return False
         t = self.ntype[subj]
         if subj in self.acc:
-            # an operator on an accessor turns it into a getattr operation and consumes it (`_method = None`):
-            # only for accessors nobody else holds (known finding otherwise)
+            # an operator on an accessor records the attribute access on a private copy; chained attribute / method
+            # access on an accessor is not generated
             rows = [r for r in TABLE[t] if not r[0].startswith(('m:', 'a:'))]
-            held = any(subj in [a.get('n') for a in _args_of(q)] or (q['s'] in ('watch', 'ref') and q['n'] == subj)
-                       for q in self.prog)
-            if held or self.raises_now(subj) or not rows:
+            if not rows:
                 return False
             form, ots, rt = rng.choice(rows)
-            args = [self.operand(o, container=True) for o in ots]
-            if any(a.get('n') == subj for x in args for a in _flat(x)):
-                return False                       # `m & m`: the operand would be the consumed accessor
-            ok = self.push({'s': 'op', 'n': subj, 'op': form, 'args': args}, rt)
-            if ok:
-                self.acc.discard(subj)
-                sh.user.remove(subj)
-            return ok
+            return self.push({'s': 'op', 'n': subj, 'op': form, 'args': [self.operand(o, container=True) for o in ots]}, rt)
         if t != 'float' and rng.random() < 0.06:     # deliberately ill-typed
             form, ots, rt = rng.choice(TABLE[rng.choice(list(TABLE))])
             rt = 'any'
@@ -921,9 +910,9 @@ def _directed():
                          st(0, 2), rd(11), rd(6), rd(3), rd(9)]})
     out.append({'prog': [lit(F(2.5)), op(0, 'a:imag'), op(0, 'a:real'), lit(F(0.0)), op(7, 'eq', N(3)), op(7, 'eq', N(6)), rd(9), rd(11),
                          st(0, F(0.0)), rd(9), rd(11), rd(3), rd(6)]})
-    # an operator on an accessor turns it into a getattr operation (and consumes the accessor)
+    # an operator on an accessor turns it into a getattr operation on a private copy
     out.append({'prog': [lit(7), op(0, 'a:imag'), op(3, 'add', L(5)), rd(5), st(0, 9), rd(5)]})
-    # known finding: ... after which the accessor object itself stands for the whole value
+    # ... and the accessor keeps standing for the attribute (fixed in /repo 2dee7d8)
     out.append({'prog': [lit(7), op(0, 'a:imag'), rd(3), op(3, 'add', L(5)), rd(5), rd(3)]})
     # round(): result type (int / float) and ties to even; round(expr, 0) keeps the operand's type
     out.append({'prog': [lit(F(2.5)), op(0, 'round'), op(0, 'round0'), rd(2), rd(4), st(0, F(3.5)), rd(2), rd(4), st(0, F(-1.5)), rd(2), rd(4),
@@ -1195,26 +1184,6 @@ def _explained_raise(prog, idx, cls):
     return False
 
 
-def _consumed_accessor_used(prog, at):
-    """an attribute accessor (`acc = n.name`) became the subject of an operator / method call at or before
-    statement `at` although it is also held elsewhere: read afterwards, or used as operand / watch / reference"""
-    nid, acc, consumed_at = 0, set(), {}
-    for i, st in enumerate(prog[:at + 1]):
-        if st['s'] in ('op', 'meth', 'meth2', 'attr') and st['n'] in acc and st['n'] not in consumed_at:
-            consumed_at[st['n']] = i
-        k, _ = _allocs(st)
-        if st['s'] == 'attr':
-            acc.add(nid + k - 1)
-        nid += k
-    for a, j in consumed_at.items():
-        for i, st in enumerate(prog[:at + 1]):
-            if a in [x.get('n') for x in _args_of(st)] or (st['s'] in ('watch', 'ref') and st['n'] == a):
-                return True
-            if i > j and st['s'] in ('read', 'isin', 'op', 'meth', 'meth2', 'attr') and st['n'] == a:
-                return True
-    return False
-
-
 def classify(case, impl, fail):
     if fail.get('kind') != 'counterexample' or not isinstance(impl, dict) or 'steps' not in impl:
         return None
@@ -1228,8 +1197,6 @@ def classify(case, impl, fail):
         if impl['steps'][i]['e'] in EXC and _explained_raise(prog, i, impl['steps'][i]['e']):
             return 'update-raises-aborts-dispatch'
         return None
-    if _consumed_accessor_used(prog, at):
-        return 'attribute-accessor-consumed-by-operator'
     if [i for i in where_refs(prog) if i <= at]:
         return 'where-trigger-hidden-from-consumers'
     if [i for i in equal_updates(prog) if i <= at]:
